@@ -15,19 +15,31 @@ import (
 	"bytes"
 	"compress/gzip"
 	"context"
+	"crypto/sha1"
 	"encoding/binary"
+	"encoding/hex"
 	"encoding/json"
 	"fmt"
 	"math/rand"
 	"mime/multipart"
+	"reflect"
 	"sort"
 	"strings"
+	"sync"
 	"time"
 
+	fch "github.com/ClickHouse/ch-go"
+	"github.com/ClickHouse/ch-go/proto"
 	"github.com/go-faster/city"
 	pprof "github.com/google/pprof/profile"
+	clconfig "github.com/metrico/cloki-config"
+	clbase "github.com/metrico/cloki-config/config"
 	rsvc "github.com/metrico/qryn/reader/service"
+	"github.com/metrico/qryn/writer/ch_wrapper"
+	wconfig "github.com/metrico/qryn/writer/config"
 	wmodel "github.com/metrico/qryn/writer/model"
+	wsvc "github.com/metrico/qryn/writer/service"
+	"github.com/metrico/qryn/writer/service/impl"
 	"github.com/metrico/qryn/writer/utils/unmarshal"
 	"verif/harness/hx"
 )
@@ -55,7 +67,15 @@ type Prof struct {
 	Inl     bool     `json:"inl"` // locations get a second (inlined) line; only Line[0] counts
 	Bad     string   `json:"bad"` // "" | noperiod | trunc | garbage
 	Samples []Sample `json:"samples"`
-	// observations
+	Fail    int      `json:"fail"` // the first Fail inserts (ClickHouse Do) of this profile's batch fail; the request is then re-submitted
+	// observations: Rows/Funcs/Vagg/NProf are read from the block the insert service finally got ACCEPTED
+	// (the parser output only when the profile was rejected before reaching the service)
+	Attempts     int      `json:"attempts"`      // svc.Request calls made for the (single) profile request
+	Acked        bool     `json:"acked"`         // the last of them succeeded
+	Blocks       []string `json:"blocks"`        // digest of (tree, functions, values_agg, scalar row count) of every block handed to Do, in order
+	BlockOK      []bool   `json:"block_ok"`      // which of them were accepted
+	ParsedDigest string   `json:"parsed_digest"` // the same digest of the parser's ProfileData
+	ReqUnchanged bool     `json:"req_unchanged"` // every svc.Request left the ProfileData deeply equal to what it was
 	Err    string      `json:"err"`
 	NResp  int         `json:"nresp"`  // responses carrying a profile request
 	NOther int         `json:"nother"` // responses carrying any other request
@@ -253,6 +273,8 @@ func runIngest(c *Case, p *Prof) {
 	}
 	p.Err, p.NResp, p.NOther, p.NProf, p.NArr = "", 0, 0, 0, 0
 	p.Rows, p.Funcs, p.Vagg = nil, nil, nil
+	p.Attempts, p.Acked, p.Blocks, p.BlockOK, p.ParsedDigest, p.ReqUnchanged = 0, false, nil, nil, "", true
+	var pds []*wmodel.ProfileData
 	done := make(chan struct{})
 	go func() {
 		defer close(done)
@@ -276,6 +298,7 @@ func runIngest(c *Case, p *Prof) {
 				continue
 			}
 			p.NResp++
+			pds = append(pds, pd)
 			p.NProf += len(pd.TimestampNs)
 			if len(pd.Tree) > 0 || len(pd.Function) > 0 || len(pd.ValuesAgg) > 0 || len(pd.SamplesTypesUnits) > 0 {
 				p.NArr++
@@ -300,6 +323,233 @@ func runIngest(c *Case, p *Prof) {
 	case <-done:
 	case <-time.After(60 * time.Second):
 		p.Err = "timeout"
+		return
+	}
+	if p.Err == "" && len(pds) == 1 {
+		store(p, pds[0], vtok, func(s string) int { return tokOf(c.Names, s) })
+	}
+}
+
+// ---------------------------------------------------------------------------- the insert service
+// The parser's ProfileData goes through the real impl.NewProfileSamplesInsertService (ProcessRequest fills the
+// pooled columns) over a fake ClickHouse client that decodes every block handed to Do and fails the first
+// Fail of them; a failed request is re-submitted with the SAME object, as controller.doPush does.
+
+type fakeCH struct {
+	ch_wrapper.IChClient
+	mtx      sync.Mutex
+	failNext int
+	blocks   []storedBlock
+}
+
+type storedBlock struct {
+	ok      bool
+	scalars []int // row counts of the scalar columns
+	trees   [][]wmodel.TreeRootStructure
+	funcs   [][]wmodel.Function
+	vaggs   [][]wmodel.ValuesAgg
+	err     string
+}
+
+func (f *fakeCH) Ping(ctx context.Context) error { return nil }
+func (f *fakeCH) Close() error                   { return nil }
+
+func bounds(offsets proto.ColUInt64, i int) (int, int) {
+	start := 0
+	if i > 0 {
+		start = int(offsets[i-1])
+	}
+	return start, int(offsets[i])
+}
+
+func (f *fakeCH) Do(ctx context.Context, q fch.Query) error {
+	f.mtx.Lock()
+	defer f.mtx.Unlock()
+	b := storedBlock{}
+	perr := hx.Catch(func() {
+		var treeCol *proto.ColArr[wmodel.TreeRootStructure]
+		var aggCol *proto.ColArr[wmodel.ValuesAgg]
+		var fnCol *proto.ColArr[wmodel.Function]
+		for _, c := range q.Input {
+			switch c.Name {
+			case "tree":
+				treeCol = c.Data.(*proto.ColArr[wmodel.TreeRootStructure])
+			case "values_agg":
+				aggCol = c.Data.(*proto.ColArr[wmodel.ValuesAgg])
+			case "functions":
+				fnCol = c.Data.(*proto.ColArr[wmodel.Function])
+			default:
+				b.scalars = append(b.scalars, c.Data.Rows())
+			}
+		}
+		b.scalars = append(b.scalars, treeCol.Rows(), aggCol.Rows(), fnCol.Rows())
+		tt := treeCol.Data.(wsvc.ColTupleTreeAdapter).ColTuple
+		parents, fns, ids := *tt[0].(*proto.ColUInt64), *tt[1].(*proto.ColUInt64), *tt[2].(*proto.ColUInt64)
+		vals := tt[3].(*proto.ColArr[wmodel.ValuesArrTuple])
+		vt := vals.Data.(wsvc.ColTupleTreeValueAdapter).ColTuple
+		vn, vs, vtot := vt[0].(*proto.ColStr), *vt[1].(*proto.ColInt64), *vt[2].(*proto.ColInt64)
+		for r := 0; r < treeCol.Rows(); r++ {
+			var tree []wmodel.TreeRootStructure
+			s, e := bounds(treeCol.Offsets, r)
+			for i := s; i < e; i++ {
+				n := wmodel.TreeRootStructure{Field1: parents[i], Field2: fns[i], Field3: ids[i]}
+				a, z := bounds(vals.Offsets, i)
+				for j := a; j < z; j++ {
+					n.ValueArrTuple = append(n.ValueArrTuple, wmodel.ValuesArrTuple{ValueStr: vn.Row(j), FirstValueInt64: vs[j], SecondValueInt64: vtot[j]})
+				}
+				tree = append(tree, n)
+			}
+			b.trees = append(b.trees, tree)
+		}
+		at := aggCol.Data.(wsvc.ColTupleStrInt64Int32Adapter).ColTuple
+		an, as, ac := at[0].(*proto.ColStr), *at[1].(*proto.ColInt64), *at[2].(*proto.ColInt32)
+		for r := 0; r < aggCol.Rows(); r++ {
+			var l []wmodel.ValuesAgg
+			s, e := bounds(aggCol.Offsets, r)
+			for i := s; i < e; i++ {
+				l = append(l, wmodel.ValuesAgg{ValueStr: an.Row(i), ValueInt64: as[i], ValueInt32: ac[i]})
+			}
+			b.vaggs = append(b.vaggs, l)
+		}
+		ft := fnCol.Data.(wsvc.ColTupleFunctionAdapter).ColTuple
+		fi, fnm := *ft[0].(*proto.ColUInt64), ft[1].(*proto.ColStr)
+		for r := 0; r < fnCol.Rows(); r++ {
+			var l []wmodel.Function
+			s, e := bounds(fnCol.Offsets, r)
+			for i := s; i < e; i++ {
+				l = append(l, wmodel.Function{ValueInt64: fi[i], ValueStr: fnm.Row(i)})
+			}
+			b.funcs = append(b.funcs, l)
+		}
+	})
+	if perr != "" {
+		b.err = "cannot decode the block: " + perr
+	}
+	if f.failNext > 0 {
+		f.failNext--
+		f.blocks = append(f.blocks, b)
+		return fmt.Errorf("clickhouse: simulated outage during insert")
+	}
+	b.ok = true
+	f.blocks = append(f.blocks, b)
+	return nil
+}
+
+func digest(scalars []int, trees [][]wmodel.TreeRootStructure, funcs [][]wmodel.Function, vaggs [][]wmodel.ValuesAgg) string {
+	b, _ := json.Marshal([]interface{}{scalars, trees, funcs, vaggs})
+	h := sha1.Sum(b)
+	return hex.EncodeToString(h[:8])
+}
+
+var (
+	theFake *fakeCH
+	theSvc  wsvc.IInsertServiceV2
+)
+
+func service() (wsvc.IInsertServiceV2, *fakeCH) {
+	if theSvc != nil {
+		return theSvc, theFake
+	}
+	wsvc.CreateColPools(0)
+	cfg := &clbase.ClokiBaseSettingServer{}
+	wconfig.Cloki = &clconfig.ClokiConfig{Setting: cfg}
+	theFake = &fakeCH{}
+	node := &wmodel.DataDatabasesMap{}
+	node.Node = "verifnode"
+	node.WriteTimeout = 5
+	theSvc = impl.NewProfileSamplesInsertService(wmodel.InsertServiceOpts{
+		Session:     func() (ch_wrapper.IChClient, error) { return theFake, nil },
+		Node:        node,
+		Interval:    2 * time.Millisecond,
+		ParallelNum: 1,
+	})
+	theSvc.Init()
+	go theSvc.Run()
+	return theSvc, theFake
+}
+
+func clonePD(pd *wmodel.ProfileData) *wmodel.ProfileData {
+	b, _ := json.Marshal(pd)
+	var c wmodel.ProfileData
+	json.Unmarshal(b, &c)
+	return &c
+}
+
+func store(p *Prof, pd *wmodel.ProfileData, vtok func(string) int, ntok func(string) int) {
+	svc, fake := service()
+	fake.mtx.Lock()
+	fake.failNext, fake.blocks = p.Fail, nil
+	fake.mtx.Unlock()
+	p.ParsedDigest = digest(nil, [][]wmodel.TreeRootStructure{pd.Tree}, [][]wmodel.Function{pd.Function}, [][]wmodel.ValuesAgg{pd.ValuesAgg})
+	before := clonePD(pd)
+	for p.Attempts < p.Fail+2 && !p.Acked {
+		p.Attempts++
+		var err error
+		ch := make(chan struct{})
+		go func() {
+			defer close(ch)
+			if perr := hx.Catch(func() { _, err = svc.Request(pd, wsvc.INSERT_MODE_SYNC).Get() }); perr != "" {
+				err = fmt.Errorf("panic: %s", perr)
+			}
+		}()
+		select {
+		case <-ch:
+		case <-time.After(30 * time.Second):
+			p.Err = "insert timeout"
+			return
+		}
+		if !reflect.DeepEqual(before, clonePD(pd)) {
+			p.ReqUnchanged = false
+		}
+		p.Acked = err == nil
+	}
+	fake.mtx.Lock()
+	defer fake.mtx.Unlock()
+	// what was finally accepted replaces the parser's view: this is what the property is judged on
+	p.Rows, p.Funcs, p.Vagg, p.NProf, p.NArr = nil, nil, nil, 0, 0
+	for _, b := range fake.blocks {
+		p.Blocks = append(p.Blocks, digest(nil, b.trees, b.funcs, b.vaggs))
+		p.BlockOK = append(p.BlockOK, b.ok)
+		if !b.ok {
+			continue
+		}
+		if b.err != "" {
+			p.Err = b.err
+		}
+		rect := true
+		for _, n := range b.scalars {
+			if n != b.scalars[0] {
+				rect = false
+			}
+		}
+		if !rect {
+			p.Err = fmt.Sprintf("accepted block is not rectangular: %v", b.scalars)
+		}
+		if len(b.scalars) > 0 {
+			p.NProf += b.scalars[0]
+		}
+		for r := range b.trees {
+			if len(b.trees[r]) > 0 || len(b.funcs[r]) > 0 || len(b.vaggs[r]) > 0 {
+				p.NArr++
+			}
+			for _, t := range b.trees[r] {
+				row := Row{P: t.Field1, F: t.Field2, I: t.Field3}
+				for _, v := range t.ValueArrTuple {
+					row.V = append(row.V, [2]int64{v.FirstValueInt64, v.SecondValueInt64})
+					row.VN = append(row.VN, vtok(v.ValueStr))
+				}
+				p.Rows = append(p.Rows, row)
+			}
+			for _, f := range b.funcs[r] {
+				p.Funcs = append(p.Funcs, [2]uint64{f.ValueInt64, uint64(int64(ntok(f.ValueStr)))})
+			}
+			for _, v := range b.vaggs[r] {
+				p.Vagg = append(p.Vagg, [3]int64{int64(vtok(v.ValueStr)), v.ValueInt64, int64(v.ValueInt32)})
+			}
+		}
+	}
+	if !p.Acked && p.Err == "" {
+		p.Err = "insert not acknowledged"
 	}
 }
 
@@ -598,6 +848,9 @@ func genProf(r *rand.Rand, c *Case, class string, st []int) Prof {
 		p.TagPad = 1024*1024 + 10 + r.Intn(100)
 	case "bad":
 		p.Bad = []string{"noperiod", "trunc", "garbage"}[r.Intn(3)]
+	}
+	if r.Intn(3) == 0 {
+		p.Fail = 1 // the first insert of this profile's batch fails; the request is re-submitted
 	}
 	if p.Path == "mp" && len(buildProfile(c, &p)) > 90000 {
 		p.Path = "bingz" // the multipart path rejects bodies over 100000 uncompressed bytes
